@@ -1,0 +1,16 @@
+//go:build verif
+
+package survey
+
+// Accessors used only by the out-of-tree verification harness (/verif); compiled with -tags verif.
+
+type verifPeers struct {
+	gossiper
+	n int
+}
+
+func (v verifPeers) NumPeers() int { return v.n }
+
+// VerifSetPeers makes every query wait for n answers: the number the mesh router would report as established
+// connections (the harness' brokers exchange gossip and frames through a simulated mesh, the router itself has none).
+func (c *Surveyor) VerifSetPeers(n int) { c.gossip = verifPeers{c.gossip, n} }
